@@ -359,6 +359,56 @@ use crate::toy::msm::{looked, reset_looked, Dlog, Elem, Lin, ToyScalar, Zp, E139
 use group::Group;
 use midnight_curves::msm::msm_serial;
 
+/// Assume-guarantee split (under Kani only; the native replay runs the real function): inside the msm_serial harnesses
+/// `get_booth_index` is replaced by this loop-free evaluation of the Booth definition (module header) on scalars of at
+/// most 4 bytes; `booth_short_slices_l{1,2,3}` prove the REAL function equal to it on exactly the domain it asserts.
+/// Reason: the `zip(el.iter().skip(n))` loop of the real function is unwound to the harness-wide bound (window count + 2)
+/// at every call; that alone was 2/3 of the symbolic execution (notes/K4.md).
+pub fn booth_digit_by_definition(window_index: usize, window_size: usize, el: &[u8]) -> i32 {
+    assert!(el.len() >= 1 && el.len() <= 3, "booth stand-in: scalar length outside the proven domain");
+    assert!(window_size >= 1 && window_size <= 4, "booth stand-in: window size outside the proven domain");
+    assert!(window_index <= 8 * el.len() / window_size + 1, "booth stand-in: window index outside the proven domain");
+    let mut v: u64 = el[0] as u64;
+    if el.len() > 1 {
+        v |= (el[1] as u64) << 8;
+    }
+    if el.len() > 2 {
+        v |= (el[2] as u64) << 16;
+    }
+    // t_0 = b_{ic-1}, t_{j+1} = b_{ic+j} for j < c
+    let t = ((v << 1) >> (window_index * window_size)) & ((1u64 << (window_size + 1)) - 1);
+    ((t >> 1) + (t & 1)) as i32 - ((((t >> window_size) & 1) << window_size) as i32)
+}
+
+fn booth_short_slices<const L: usize>() {
+    let el: [u8; L] = any();
+    let (i, c): (usize, usize) = (any(), any());
+    assume(c >= 1 && c <= 4);
+    assume(i <= 8 * L / c + 1);
+    let real = verif_get_booth_index(i, c, &el);
+    assert!(real == booth_digit_by_definition(i, c, &el), "get_booth_index differs from the Booth definition on a short scalar");
+    assert!(real as i64 == booth_spec(&el, i, c), "the two statements of the Booth definition disagree");
+    vcover!(real < 0);
+    vcover!(real > 0 && i == 8 * L / c, "carry window");
+    vcover!(i == 8 * L / c + 1);
+    vcover!(c == 3 && i == 0 && real != 0);
+}
+#[cfg_attr(kani, kani::proof)]
+#[cfg_attr(kani, kani::unwind(8))]
+pub fn booth_short_slices_l1() {
+    booth_short_slices::<1>()
+}
+#[cfg_attr(kani, kani::proof)]
+#[cfg_attr(kani, kani::unwind(8))]
+pub fn booth_short_slices_l2() {
+    booth_short_slices::<2>()
+}
+#[cfg_attr(kani, kani::proof)]
+#[cfg_attr(kani, kani::unwind(8))]
+pub fn booth_short_slices_l3() {
+    booth_short_slices::<3>()
+}
+
 /// k * p, plain double-and-add over the bits of the INTEGER k (written here, independent of the environment's `Mul`)
 fn ref_mul<E: Elem>(k: u32, p: E, nbits: u32) -> E {
     let mut r = E::id();
@@ -374,6 +424,16 @@ fn ref_mul<E: Elem>(k: u32, p: E, nbits: u32) -> E {
 }
 
 fn msm_serial_is_sum<E: Elem, const N: usize>(bases: [GA<E>; N]) {
+    let nbits = 8 * <E::Scalar as ToyScalar>::NB as u32;
+    msm_serial_is_sum_by::<E, N>(bases, |k, p| ref_mul(k, p, nbits))
+}
+
+/// integer weights: k * w is the integer product (no loop, so the unwinding bound follows the window count alone)
+fn msm_serial_is_sum_zp<S: ToyScalar, const N: usize>(bases: [GA<Zp<S>>; N]) {
+    msm_serial_is_sum_by::<Zp<S>, N>(bases, |k, p| Zp::w(k as i32 * p.0))
+}
+
+fn msm_serial_is_sum_by<E: Elem, const N: usize>(bases: [GA<E>; N], scalar_mul: impl Fn(u32, E) -> E) {
     let q = <E::Scalar as ToyScalar>::Q;
     let nb = <E::Scalar as ToyScalar>::NB;
     let mut ks = [0u32; N];
@@ -394,7 +454,7 @@ fn msm_serial_is_sum<E: Elem, const N: usize>(bases: [GA<E>; N]) {
     let mut want = E::id();
     let mut i = 0;
     while i < N {
-        want = want.gadd(ref_mul(ks[i], bases[i].0, 8 * nb as u32));
+        want = want.gadd(scalar_mul(ks[i], bases[i].0));
         i += 1;
     }
     let ok = acc.0.same(&want);
@@ -479,6 +539,7 @@ pub fn toy_e139_is_a_group_of_order_163() {
 /// the real curve, every point (identity, equal and opposite points included), every scalar of F_163
 #[cfg_attr(kani, kani::proof)]
 #[cfg_attr(kani, kani::unwind(11))]
+#[cfg_attr(kani, kani::stub(midnight_curves::msm::get_booth_index, crate::c12::booth_digit_by_definition))]
 pub fn msm_serial_e139_n1() {
     let bases = [any_e139()];
     vcover!(bases[0].0.is_id(), "the base is the identity");
@@ -486,6 +547,7 @@ pub fn msm_serial_e139_n1() {
 }
 #[cfg_attr(kani, kani::proof)]
 #[cfg_attr(kani, kani::unwind(11))]
+#[cfg_attr(kani, kani::stub(midnight_curves::msm::get_booth_index, crate::c12::booth_digit_by_definition))]
 pub fn msm_serial_e139_n2() {
     let bases = [any_e139(), any_e139()];
     vcover!(bases[0].0.same(&bases[1].0) && !bases[0].0.is_id(), "repeated base");
@@ -502,6 +564,7 @@ fn any_dlog<S: ToyScalar>() -> GA<Dlog<S>> {
 /// (Z_163, +): every element as a base (identity, repeated and opposite bases included), every scalar
 #[cfg_attr(kani, kani::proof)]
 #[cfg_attr(kani, kani::unwind(11))]
+#[cfg_attr(kani, kani::stub(midnight_curves::msm::get_booth_index, crate::c12::booth_digit_by_definition))]
 pub fn msm_serial_dlog163_n1() {
     let bases = [any_dlog::<F163>()];
     vcover!(bases[0].0.is_id(), "the base is the identity");
@@ -509,6 +572,7 @@ pub fn msm_serial_dlog163_n1() {
 }
 #[cfg_attr(kani, kani::proof)]
 #[cfg_attr(kani, kani::unwind(11))]
+#[cfg_attr(kani, kani::stub(midnight_curves::msm::get_booth_index, crate::c12::booth_digit_by_definition))]
 pub fn msm_serial_dlog163_n2() {
     let bases = [any_dlog::<F163>(), any_dlog::<F163>()];
     vcover!(bases[0].0 .0 == bases[1].0 .0 && bases[0].0 .0 != 0, "repeated base");
@@ -518,6 +582,7 @@ pub fn msm_serial_dlog163_n2() {
 }
 #[cfg_attr(kani, kani::proof)]
 #[cfg_attr(kani, kani::unwind(11))]
+#[cfg_attr(kani, kani::stub(midnight_curves::msm::get_booth_index, crate::c12::booth_digit_by_definition))]
 pub fn msm_serial_dlog163_n3() {
     let bases = [any_dlog::<F163>(), any_dlog::<F163>(), any_dlog::<F163>()];
     vcover!(bases[0].0 .0 == bases[2].0 .0 && bases[0].0 .0 != 0, "repeated base");
@@ -541,7 +606,7 @@ fn msm_serial_integer_weights<S: ToyScalar, const N: usize>() {
     vcover!(unit == N, "no identity base");
     vcover!(N < 2 || (bases[0].0 .0 == bases[1].0 .0 && bases[0].0 .0 != 0), "repeated base");
     vcover!(N < 2 || (bases[0].0 .0 == -bases[1].0 .0 && bases[0].0 .0 != 0), "opposite bases");
-    msm_serial_is_sum::<Zp<S>, N>(bases)
+    msm_serial_is_sum_zp::<S, N>(bases)
 }
 /// unit vectors only: base j (symbolic) is the formal point P, all others are the identity. By the argument at `Zp`
 /// this already fixes every coefficient c_j = s_j; for the solver each case is a problem in ONE scalar.
@@ -556,41 +621,43 @@ fn msm_serial_unit_weights<S: ToyScalar, const N: usize>() {
     }
     vcover!(j == 0);
     vcover!(j == N - 1);
-    msm_serial_is_sum::<Zp<S>, N>(bases)
+    msm_serial_is_sum_zp::<S, N>(bases)
 }
 macro_rules! msm_unit_harness {
     ($($name:ident = ($S:ty, $n:expr, $unwind:expr)),*) => {$(
         #[cfg_attr(kani, kani::proof)]
         #[cfg_attr(kani, kani::unwind($unwind))]
+        #[cfg_attr(kani, kani::stub(midnight_curves::msm::get_booth_index, crate::c12::booth_digit_by_definition))]
         pub fn $name() {
             msm_serial_unit_weights::<$S, $n>()
         }
     )*};
 }
 msm_unit_harness!(
-    msm_serial_unit_q163_n2 = (F163, 2, 11), msm_serial_unit_q163_n3 = (F163, 3, 11), msm_serial_unit_q163_n4 = (F163, 4, 11),
+    msm_serial_unit_q163_n2 = (F163, 2, 11), msm_serial_unit_q163_n3 = (F163, 3, 11), msm_serial_unit_q163_n4 = (F163, 4, 6),
     msm_serial_unit_q65521_n1 = (F65521, 1, 19), msm_serial_unit_q65521_n2 = (F65521, 2, 19), msm_serial_unit_q65521_n3 = (F65521, 3, 19),
-    msm_serial_unit_q65521_n4 = (F65521, 4, 19),
+    msm_serial_unit_q65521_n4 = (F65521, 4, 8),
     msm_serial_unit_q16777213_n1 = (F16777213, 1, 27), msm_serial_unit_q16777213_n2 = (F16777213, 2, 27),
-    msm_serial_unit_q16777213_n3 = (F16777213, 3, 27), msm_serial_unit_q16777213_n4 = (F16777213, 4, 27)
+    msm_serial_unit_q16777213_n3 = (F16777213, 3, 27), msm_serial_unit_q16777213_n4 = (F16777213, 4, 11)
 );
 macro_rules! msm_weights_harness {
     ($($name:ident = ($S:ty, $n:expr, $unwind:expr)),*) => {$(
         #[cfg_attr(kani, kani::proof)]
         #[cfg_attr(kani, kani::unwind($unwind))]
+        #[cfg_attr(kani, kani::stub(midnight_curves::msm::get_booth_index, crate::c12::booth_digit_by_definition))]
         pub fn $name() {
             msm_serial_integer_weights::<$S, $n>()
         }
     )*};
 }
-// unwind = largest window count + 2: 8b/c + 1 windows, c = 1 for n < 4, c = 3 for n = 4
+// unwind = max(largest window count, n) + 2: 8b/c + 1 windows, c = 1 for n < 4, c = 3 for n = 4
 msm_weights_harness!(
     msm_serial_zp_q163_n1 = (F163, 1, 11), msm_serial_zp_q163_n2 = (F163, 2, 11), msm_serial_zp_q163_n3 = (F163, 3, 11),
-    msm_serial_zp_q163_n4 = (F163, 4, 11),
+    msm_serial_zp_q163_n4 = (F163, 4, 6),
     msm_serial_zp_q65521_n1 = (F65521, 1, 19), msm_serial_zp_q65521_n2 = (F65521, 2, 19), msm_serial_zp_q65521_n3 = (F65521, 3, 19),
-    msm_serial_zp_q65521_n4 = (F65521, 4, 19),
+    msm_serial_zp_q65521_n4 = (F65521, 4, 8),
     msm_serial_zp_q16777213_n1 = (F16777213, 1, 27), msm_serial_zp_q16777213_n2 = (F16777213, 2, 27),
-    msm_serial_zp_q16777213_n3 = (F16777213, 3, 27), msm_serial_zp_q16777213_n4 = (F16777213, 4, 27)
+    msm_serial_zp_q16777213_n3 = (F16777213, 3, 27), msm_serial_zp_q16777213_n4 = (F16777213, 4, 11)
 );
 
 /// N independent formal points (free module of rank N over the scalar field S)
@@ -607,6 +674,7 @@ macro_rules! msm_generic_harness {
     ($($name:ident = ($S:ty, $n:expr, $unwind:expr)),*) => {$(
         #[cfg_attr(kani, kani::proof)]
         #[cfg_attr(kani, kani::unwind($unwind))]
+        #[cfg_attr(kani, kani::stub(midnight_curves::msm::get_booth_index, crate::c12::booth_digit_by_definition))]
         pub fn $name() {
             msm_serial_generic_points::<$S, $n>()
         }
